@@ -185,6 +185,65 @@ def defaults_corner_document() -> dict:
     return gen.mkdoc(schemas=schemas, paths=paths, title="Defaults corner")
 
 
+def consts_document() -> dict:
+    """const schemas (typing.Literal) in every position of an operation's signature and of a model."""
+    c = lambda v: {"const": v}
+    ok = {"200": {"description": "d"}}
+    paths = {
+        "/q": {"get": {"operationId": "constQuery", "parameters": [{"name": "mode", "in": "query", "required": True, "schema": c("fast")}, {"name": "n", "in": "query", "schema": c(3)}], "responses": ok}},
+        "/p/{kind}": {"get": {"operationId": "constPath", "parameters": [{"name": "kind", "in": "path", "required": True, "schema": c("only")}], "responses": ok}},
+        "/h": {"get": {"operationId": "constHeaderCookie", "parameters": [{"name": "X-Mode", "in": "header", "schema": c("h")}, {"name": "ck", "in": "cookie", "schema": c("c")}], "responses": ok}},
+        "/b": {"post": {"operationId": "constBody", "requestBody": {"content": {"application/json": {"schema": c("payload")}}}, "responses": ok}},
+        "/r": {"get": {"operationId": "constResponse", "responses": {"200": {"description": "d", "content": {"application/json": {"schema": c("done")}}}}}},
+        "/u": {"get": {"operationId": "constUnionResponse", "responses": {"200": {"description": "d", "content": {"application/json": {"schema": {"oneOf": [c("a"), c("b"), c(1)]}}}}}}},
+        "/l": {"get": {"operationId": "constListResponse", "responses": {"200": {"description": "d", "content": {"application/json": {"schema": {"type": "array", "items": c("x")}}}},
+                                                                       "404": {"description": "d", "content": {"application/json": {"schema": {"$ref": "#/components/schemas/HasConst"}}}}}}},
+    }
+    schemas = {"HasConst": {"type": "object", "required": ["k"], "properties": {"k": c("fixed"), "o": c(7), "u": {"oneOf": [c("p"), c("q")]}, "l": {"type": "array", "items": c("i")}}}}
+    return gen.mkdoc(schemas=schemas, paths=paths, title="Consts", version="3.1.0")
+
+
+def shared_names_with_failing_document() -> dict:
+    """Class names shared between a schema that FAILS to process and things that survive: an inline enum equal to a component enum,
+    and inline models whose derived names coincide (A.x_y and AX.y both give AXY)."""
+    e = {"type": "string", "enum": ["available", "sold"]}
+    S = {"type": "string"}
+    schemas = {
+        "Pet": {"type": "object", "properties": {"status": dict(e), "broken": {"type": "array"}}},            # fails: array without items, AFTER the enum
+        "PetStatus": dict(e),
+        "Order": {"type": "object", "properties": {"pet_status": {"$ref": "#/components/schemas/PetStatus"}}},
+        "A": {"type": "object", "properties": {"x_y": {"type": "object", "properties": {"v": S}}, "broken": {"type": "array"}}},      # fails after registering AXY
+        "AX": {"type": "object", "properties": {"y": {"type": "object", "properties": {"w": S}}}},
+        "User": {"type": "object", "properties": {"ax": {"$ref": "#/components/schemas/AX"}}},
+    }
+    paths = {"/orders": {"get": {"operationId": "listOrders", "parameters": [{"name": "status", "in": "query", "schema": {"$ref": "#/components/schemas/PetStatus"}}],
+                                 "responses": {"200": {"description": "d", "content": {"application/json": {"schema": {"type": "array", "items": {"$ref": "#/components/schemas/Order"}}}}}}}},
+             "/users": {"get": {"operationId": "listUsers", "responses": {"200": {"description": "d", "content": {"application/json": {"schema": {"$ref": "#/components/schemas/User"}}}}}}}}
+    return gen.mkdoc(schemas=schemas, paths=paths, title="Shared names with failing schemas")
+
+
+def typing_named_document() -> dict:
+    """Component schemas named like things the generated modules import or define themselves, used as body and response of operations."""
+    S = {"type": "string"}
+    names = ["Response", "Union", "Optional", "Any", "Client", "AuthenticatedClient", "File", "Unset", "HTTPStatus", "errors", "httpx", "types", "cast", "Literal", "BytesIO", "Type", "T", "TypeVar",
+             "define", "field", "datetime", "isoparse", "UUID", "Mapping", "Enum", "json", "List", "Dict"]
+    schemas, paths = {}, {}
+    for i, n in enumerate(names):
+        schemas[n] = {"type": "object", "properties": {"v": S, "when": {"type": "string", "format": "date-time"}, "kind": {"type": "string", "enum": ["a", "b"]}}}
+        paths[f"/t{i}"] = {"post": {"operationId": f"op{i}", "requestBody": {"content": {"application/json": {"schema": {"$ref": f"#/components/schemas/{n}"}}}},
+                                    "responses": {"200": {"description": "d", "content": {"application/json": {"schema": {"$ref": f"#/components/schemas/{n}"}}}},
+                                                  "404": {"description": "d", "content": {"application/json": {"schema": {"type": "array", "items": {"$ref": f"#/components/schemas/{n}"}}}}}}}}
+    return gen.mkdoc(schemas=schemas, paths=paths, title="Typing named schemas")
+
+
+def nonfinite_defaults_document() -> dict:
+    """Numbers YAML can write and JSON cannot (.inf, -.inf, .nan) and very large ones as defaults of number properties and parameters."""
+    vals = {"pinf": float("inf"), "ninf": float("-inf"), "nan": float("nan"), "big": 1e308, "tiny": 5e-324, "bigint": 10 ** 30}
+    schemas = {"N": {"type": "object", "properties": {k: {"type": "number", "default": v} for k, v in vals.items()}}}
+    paths = {"/n": {"get": {"operationId": "n", "parameters": [{"name": k, "in": "query", "schema": {"type": "number", "default": v}} for k, v in vals.items()], "responses": {"200": {"description": "d"}}}}}
+    return gen.mkdoc(schemas=schemas, paths=paths, title="Nonfinite defaults")
+
+
 def run(rep) -> None:
     quick = rep.tier == "quick"
     rnd = random.Random(seed() * 1069 + 1)
@@ -215,6 +274,10 @@ def run(rep) -> None:
         docs["reserved-names"] = reserved_named_document()
         docs["enum-collisions"] = enum_collision_document()
         docs["defaults-corner"] = defaults_corner_document()
+        docs["consts"] = consts_document()
+        docs["shared-names-failing"] = shared_names_with_failing_document()
+        docs["typing-named"] = typing_named_document()
+        docs["nonfinite-defaults"] = nonfinite_defaults_document()
         for name, rdoc in c12.rich_documents().items():
             if name in ("rich", "baseline_openapi_3.0.json") or not quick:
                 docs["doc:" + name] = rdoc
